@@ -285,5 +285,54 @@ pub fn main(tier: Option<&str>) {
         drop(rig);
         let _ = std::fs::remove_dir_all(&root);
     }
+
+    // 6. the record a real store names as its farthest (the one a full store evicts, and what the replication fetcher is
+    //    told): after every step of every sequence of <=4 settled writes / removals over 4 keys at known distances it is
+    //    the held key with the largest distance integer
+    {
+        use crate::store_rig::{ranked_keys, RigCfg, StoreRig};
+        let me = rigs::fixtures::peer_id(1);
+        let keys = ranked_keys(me, 4, "c11-farthest");
+        let me_bytes = NetworkAddress::from_peer(me).as_bytes();
+        let dist = |k: &libp2p::kad::RecordKey| u(&xor_distance(&me_bytes, k.as_ref()));
+        let ops: Vec<u8> = (0..8).collect(); // 0..4 write key i, 4..8 remove key i-4
+        enumerate::sequences(&ops, 4, |seq| {
+            if seq.is_empty() {
+                return;
+            }
+            let root = crate::c01::fresh_scratch("c11-far");
+            let mut rig = StoreRig::new(&root, RigCfg { max_records: 64, cache_size: 4, max_value_bytes: None }, me);
+            rig.settle();
+            let mut held: std::collections::BTreeSet<usize> = Default::default();
+            for (pos, op) in seq.iter().enumerate() {
+                let i = (*op % 4) as usize;
+                if *op < 4 {
+                    rig.put(&keys[i], &[&[0x91u8, 1][..], format!("c11-far-{i}").as_bytes()].concat()).expect("put");
+                    held.insert(i);
+                } else {
+                    rig.remove(&keys[i]);
+                    held.remove(&i);
+                }
+                rig.settle();
+                let want = held.iter().max_by_key(|i| dist(&keys[**i])).map(|i| keys[*i].clone());
+                let got = rig.store.get_farthest();
+                if pos + 1 == seq.len() {
+                    run.case(format!("farthest:{seq:?}").as_bytes(), seq.len() > 1);
+                }
+                if got != want {
+                    let names: Vec<String> = seq[..=pos].iter().map(|o| format!("{}{}", if *o < 4 { "write k" } else { "remove k" }, o % 4)).collect();
+                    run.violation(
+                        "farthest-record",
+                        "selection",
+                        format!("after {names:?} (keys ranked by distance) the store names {:?} as its farthest record, by the distance integer it is {:?}", got.as_ref().map(crate::store_rig::short), want.as_ref().map(crate::store_rig::short)),
+                        json!({"op": "farthest-record", "sequence": names}),
+                    );
+                    break;
+                }
+            }
+            drop(rig);
+            let _ = std::fs::remove_dir_all(&root);
+        });
+    }
     run.finish();
 }
